@@ -42,6 +42,8 @@ struct SeqRunner {
   const SeqWorld<Pt, Val>& w;
   Ck ck;
   uint32_t nE, nops;
+  size_t core = 0;            // number of leading boxes that have lo <= hi (or the single inverted interval) on every axis
+  bool end_core_only = false; // quick tier: the sweep at the end of a phase-A sequence asks the core boxes only
 
   SeqRunner(vf::Run& run, const SeqWorld<Pt, Val>& world) : r(run), w(world), ck(run) {
     nE = (uint32_t)w.entries.size();
@@ -65,8 +67,26 @@ struct SeqRunner {
       ck.boxes.emplace_back(PT<Pt>::make(mid), PT<Pt>::make(mid));
       ck.boxes.emplace_back(PT<Pt>::make(hi), PT<Pt>::make(lo));
     } else {
-      ck.all_boxes(w.corner_vals, w.box_mode == 0);
+      // the boxes with lo <= hi on every axis (plus one inverted interval per axis) first: `core` of them;
+      // for box_mode 0 the remaining inverted combinations follow
+      ck.all_boxes(w.corner_vals, false);
+      core = ck.boxes.size();
+      if (w.box_mode == 0) {
+        std::vector<std::pair<Pt, Pt>> head = ck.boxes;
+        ck.boxes.clear();
+        ck.all_boxes(w.corner_vals, true);
+        std::vector<std::pair<Pt, Pt>> rest;
+        for (auto& b : ck.boxes) {
+          bool in_head = false;
+          for (auto& h : head)
+            if (same_pt(h.first, b.first) && same_pt(h.second, b.second)) in_head = true;
+          if (!in_head) rest.push_back(b);
+        }
+        ck.boxes = head;
+        ck.boxes.insert(ck.boxes.end(), rest.begin(), rest.end());
+      }
     }
+    if (core == 0 || core > ck.boxes.size()) core = ck.boxes.size();
   }
 
   std::string op_name(uint32_t op) const {
@@ -104,7 +124,7 @@ struct SeqRunner {
         if (m.items.size() > max_live) max_live = m.items.size();
         if (usable && sweep_every) ck.sweep(*h.t, m, (i & 1) == 0, (Style)(i % 3));
       }
-      if (usable && !sweep_every) ck.sweep(*h.t, m, (ops.size() & 1) != 0, (Style)(ops.size() % 3));
+      if (usable && !sweep_every) ck.sweep(*h.t, m, (ops.size() & 1) != 0, (Style)(ops.size() % 3), end_core_only ? core : 0);
       ck.destroy(h);
     }
     if constexpr (std::is_same_v<Val, Tracked>) {
@@ -144,9 +164,17 @@ struct SeqRunner {
   }
   std::string bound_text(int La, int Lb) const {
     return vf::fmt("%s: every sequence of <= %d operations over %u operations (insert and erase of %u entries, 5 erase-while-iterating traversals) on one object with all observers (%zu points, %zu boxes) at the end; "
-                   "every sequence of %d operations with all observers after every step",
-        w.name.c_str(), La, nops, nE, ck.probes.size(), ck.boxes.size(), Lb);
+                   "every sequence of %d operations with all observers (%zu points, %zu boxes) after every step",
+        w.name.c_str(), La, nops, nE, ck.probes.size(), end_core_only ? core : ck.boxes.size(), Lb, ck.probes.size(), ck.boxes.size());
   }
 };
+
+template <class Pt, class Val>
+void run_world(vf::Run& r, const SeqWorld<Pt, Val>& w, int La, int Lb) {
+  SeqRunner<Pt, Val> s(r, w);
+  s.end_core_only = !r.thorough();
+  s.run(La, Lb);
+  r.bound = s.bound_text(La, Lb);
+}
 
 }  // namespace c13
